@@ -34,10 +34,11 @@ def validate(ctx: Ctx, module: str, events: list[dict], env: dict, tag: str, per
     shards = chunks(events, n)
     results = tlc.validate_trace_shards(module, shards, ctx.wd, env, tag)
     ctx.add_trace_results(results, len(events), module)
+    by_id = {e["i"]: e for e in events}
     mism = []
     for r in results:
         for (i, clause, extra) in r.mismatches:
-            mism.append((events[i], clause, extra))
+            mism.append((by_id[i], clause, extra))
     return mism
 
 
